@@ -163,7 +163,16 @@ fn run_case(c: &mut Case, r: &mut Rng, model: &mut model::Model, rep: &mut Repor
     c.dbd.load(&mut db);
     let db2 = with_v(c);
     let (create, _, _, _) = forms(c, &db2);
-    let mut script = format!("{}{};\n", c.dbd.script(), create);
+    let mut index_script = String::new();
+    if r.chance(1, 3) {
+        // secondary indexes on the base tables: neither the view nor the model knows about them
+        for ix in random_index_sql(r, &c.dbd) {
+            db.must(&ix);
+            index_script.push_str(&format!("{};\n", ix));
+        }
+        rep.count("database_with_secondary_indexes");
+    }
+    let mut script = format!("{}{}{};\n", c.dbd.script(), index_script, create);
     let cv = db.exec(&create);
     let case_id = format!("{} {} {}", c.dbd.sx(), c.body.sx(), c.outer.sx());
     if !cv.is_ok() {
